@@ -325,6 +325,25 @@ class G:
             self.use("none-valued-field")
             return self.pick(["(r.opt == None)", "(r.opt != %s)" % self.strlit(), "(r.opt in [None, %s])" % self.strlit(),
                               "(r.opt == %s)" % self.strlit()])
+        if k == "ip" and self.i(0, 5) == 0:
+            # membership in LONG literal lists / tuples (8 ... 100 items): still an equality scan, whatever the length -
+            # for values whose == is looser than their hash (addresses and paths against text, floats against ints)
+            self.use("membership:long-literal-list")
+            n = self.pick([8, 9, 16, 33, 100])
+            fld, pool = self.pick([
+                ("r.ip", ["'10.0.0.%d'" % j for j in range(1, 120)] + ["'10.1.2.3'", "'::1'", "'2001:db8::1'"]),
+                ("r.p", ["'/tmp/f%d'" % j for j in range(120)] + ["'/tmp/x'", "'a/b'"]),
+                ("r.u", ["'http://h/%d'" % j for j in range(120)] + ["'http://example.com/a/b.txt'", "'https://foo.bar/x'"]),
+                ("r.f", [str(j) for j in range(120)] + ["0.5", "2.5"]),
+                ("r.n", [str(j) for j in range(120)] + ["1.0", "2.0", "True"]),
+                ("r.s", ["'w%d'" % j for j in range(120)] + [repr(w) for w in WORDS]),
+            ])
+            items = pool[:n - 3] + [self.pick(pool[-3:] if len(pool) > 122 else pool[-2:]) for _ in range(3)]
+            k0 = self.i(0, len(items) - 1)
+            items = items[k0:] + items[:k0]
+            op = self.pick(["in", "in", "not in"])
+            lb, rb = self.pick([("[", "]"), ("[", "]"), ("(", ")")])
+            return "(%s %s %s%s%s)" % (fld, op, lb, ", ".join(items), rb)
         if k == "ip":
             self.use("ctor:net")
             return self.pick([
